@@ -58,7 +58,8 @@ def main():
                 sh(f"git -C {REPO} checkout -- .")
             caught = [k for k, v in runs.items() if v["exit"] == 1]
             broken = [k for k, v in runs.items() if v["exit"] not in (0, 1)]
-            results[name] = dict(property=pid, what=meta.get("what"), breaks=meta.get("breaks"), caught_by=caught, machinery_failure=broken, runs=runs)
+            results[name] = dict(property=pid, what=meta.get("what"), breaks=meta.get("breaks"), caught_by=caught, machinery_failure=broken, runs=runs,
+                                 out_of_domain=meta.get("out_of_domain"))
             print(name, "caught by", caught or "NOTHING", ("machinery failure in " + str(broken)) if broken else "")
             json.dump(results, open(resf, "w"), indent=1)
     finally:
